@@ -164,4 +164,27 @@ variable) keeps each value with its key: the sorted column list is a permutation
 theorem sorted_columns_keep_labels (d : List (Int × Rat)) (kv : Int × Rat) :
     kv ∈ Helpers.sortByKey d ↔ kv ∈ d := (Helpers.sortByKey_spec d).2.mem_iff
 
+/-- **Every plain attribute survives the dict round trip with its exact value** — a number (`0` included), or `None` —
+whatever default `from_dict` would use for a missing key. -/
+theorem attr_roundtrip (names : List String) (obj : String → Option Rat) (dflt : Option Rat) (a : String) (h : a ∈ names) :
+    attrFromDict (attrsToDict names obj) dflt a = obj a := by
+  unfold attrFromDict attrsToDict
+  induction names with
+  | nil => simp at h
+  | cons n ns ih =>
+    simp only [List.map_cons, List.lookup_cons]
+    by_cases hn : a = n
+    · subst hn; simp
+    · have : (a == n) = false := by simpa using hn
+      simp only [this]
+      exact ih (by simpa [hn] using h)
+
+/-- A key that is absent takes the default; a key that is present with value `None` stays `None`. -/
+theorem attr_missing_default (d : AttrDict) (dflt : Option Rat) (a : String) (h : d.lookup a = none) :
+    attrFromDict d dflt a = dflt := by
+  simp [attrFromDict, h]
+
+example : attrFromDict (attrsToDict ["initial_inventory_level", "stockout_cost"] (fun a => if a = "stockout_cost" then none else some 0))
+    (some 7) "initial_inventory_level" = some 0 := by decide +kernel
+
 end Stockpyl.Serial
